@@ -352,6 +352,8 @@ func checkC14(c *Ctx) {
 	c.c14ReadThrough()
 	c.c14Name(handlers, mgr, mbfa)
 	c.c14Routes()
+	c.c14RouteEffects()
+	c.c14ErrPropagate(units)
 	// the handlers and what they run synchronously, also through a function value (a handler
 	// may be a thin wrapper around an action function: mailboxActionV1(f).handle); code that only
 	// runs on other goroutines (the WebSocket writers) is not on the HTTP response path
@@ -1624,4 +1626,177 @@ func (c *Ctx) mgrOpThroughValue(call *ssa.Call, ops ...*types.Func) *types.Func 
 		}
 	}
 	return found
+}
+
+// c14RouteEffects: each REST route does what its method and path say. The mapping is the API's
+// own (doc/rest-api): DELETE of a mailbox purges it, DELETE of a message removes it, PATCH marks
+// it seen, GET of a mailbox lists it, GET of a message / its source reads it. The handler a
+// route is bound to must reach the corresponding Manager operation, and where the call sits in
+// the handler itself, every success return must have passed it: a handler that answers 200
+// without having asked the store reports a change that did not happen.
+func (c *Ctx) c14RouteEffects() {
+	r, p := c.R, c.P
+	rule := "C14/ROUTES/effect"
+	r.Rule(rule, "every /v1/mailbox route's handler reaches the Manager operation its method and path name (DELETE {name} → PurgeMessages, DELETE {id} → RemoveMessage, PATCH {id} → MarkSeen, GET {name} → GetMetadata, GET {id} → GetMessage, GET {id}/source → SourceReader); a call made in the handler itself lies on every path to a success return")
+	setup := p.Func("pkg/rest", "SetupRoutes")
+	if setup == nil {
+		return
+	}
+	want := func(rt route) string {
+		path := strings.TrimSuffix(rt.path, "/")
+		switch {
+		case !strings.Contains(path, "/mailbox/"):
+			return ""
+		case rt.method == "DELETE" && strings.HasSuffix(path, "{name}"):
+			return "PurgeMessages"
+		case rt.method == "DELETE" && strings.HasSuffix(path, "{id}"):
+			return "RemoveMessage"
+		case rt.method == "PATCH" && strings.HasSuffix(path, "{id}"):
+			return "MarkSeen"
+		case rt.method == "GET" && strings.HasSuffix(path, "{name}"):
+			return "GetMetadata"
+		case rt.method == "GET" && strings.HasSuffix(path, "{id}"):
+			return "GetMessage"
+		case rt.method == "GET" && strings.HasSuffix(path, "{id}/source"):
+			return "SourceReader"
+		}
+		return ""
+	}
+	n := 0
+	for _, rt := range c.routesOf(setup) {
+		op := want(rt)
+		if op == "" {
+			continue
+		}
+		n++
+		cons := rt.method + " " + rt.path
+		obj := p.MethodObj("pkg/message", "Manager", op)
+		if obj == nil {
+			continue
+		}
+		if rt.handler == nil {
+			r.Undecided(rule, cons, rt.site, "the handler bound to this route could not be resolved to a function")
+			continue
+		}
+		isOp := func(in ssa.Instruction) bool {
+			cc := eng.CallOf(in)
+			return cc != nil && eng.IsCallTo(cc, obj)
+		}
+		reached, inHandler := false, false
+		for g := range p.SyncReach(rt.handler) {
+			if eng.FuncPkgPath(g) != eng.FuncPkgPath(rt.handler) {
+				continue
+			}
+			g := g
+			eng.EachInstr(g, func(in ssa.Instruction) {
+				if isOp(in) {
+					reached = true
+					if g == rt.handler {
+						inHandler = true
+					}
+				}
+				// the operation handed on as a method value (applyMessageOpV1(…, ctx.Manager.MarkSeen, …))
+				if mc, ok := in.(*ssa.MakeClosure); ok {
+					if f, ok := mc.Fn.(*ssa.Function); ok && strings.HasSuffix(f.Name(), op+"$bound") {
+						reached = true
+					}
+				}
+			})
+		}
+		if !reached {
+			r.Bad(rule, cons, rt.site, "%s is bound to %s, which never calls Manager.%s: the request is answered without the store being asked (a %s that changes or reads nothing)", cons, shortFn(rt.handler), op, rt.method)
+			continue
+		}
+		if inHandler && op != "MarkSeen" {
+			succ := func(in ssa.Instruction) bool {
+				ret, ok := in.(*ssa.Return)
+				if !ok || eng.IsRecoverBlock(ret.Block()) {
+					return false
+				}
+				res := eng.ReturnResults(ret)
+				if len(res) == 0 {
+					return true
+				}
+				e := res[len(res)-1]
+				return eng.IsNilConst(e) || eng.KnownNil(e, ret.Block())
+			}
+			if bad := (&eng.Search{Target: succ, Avoid: isOp}).FromEntry(rt.handler); bad != nil {
+				r.Bad(rule, cons, p.InstrPos(bad), "%s can answer with success at %s without having called Manager.%s", shortFn(rt.handler), p.InstrPos(bad), op)
+				continue
+			}
+		}
+		r.Ok(rule, cons, rt.site, "%s reaches Manager.%s", shortFn(rt.handler), op)
+	}
+	r.Floor(rule, "mailbox routes with a named effect", n, 4)
+}
+
+// c14ErrPropagate: a failure of the layer below is never reported as success. In the handlers
+// (and the helpers judged like handlers) every Manager call's error, and in StoreManager every
+// Store call's error, leads — on its non-nil edge — only to returns that report an error; the
+// not-found answer (a comparison with the sentinel, answered 404) is the one excuse.
+func (c *Ctx) c14ErrPropagate(units []*ssa.Function) {
+	r, p := c.R, c.P
+	rule := "C14/ERR/propagate"
+	r.Rule(rule, "in the HTTP handlers every message.Manager call, and in StoreManager every storage.Store call, has its error tested, and no return reachable on the error edge reports success (except after a comparison with the not-found sentinel)")
+	mgr := p.Named("pkg/message", "Manager")
+	store := p.Named("pkg/storage", "Store")
+	if mgr == nil || store == nil {
+		return
+	}
+	ofIface := func(cc *ssa.CallCommon, n *types.Named) bool {
+		if !cc.IsInvoke() {
+			return false
+		}
+		it, ok := n.Underlying().(*types.Interface)
+		if !ok {
+			return false
+		}
+		for i := 0; i < it.NumMethods(); i++ {
+			if it.Method(i) == cc.Method {
+				return true
+			}
+		}
+		return false
+	}
+	retErr := func(call *ssa.Call) bool {
+		res := call.Call.Signature().Results()
+		return res.Len() > 0 && isErrorType(res.At(res.Len()-1).Type())
+	}
+	var hfns []*ssa.Function
+	seen := map[*ssa.Function]bool{}
+	for _, u := range units {
+		for _, g := range eng.WithAnons(u) {
+			if !seen[g] {
+				seen[g] = true
+				hfns = append(hfns, g)
+			}
+		}
+	}
+	nH := c.errNotSwallowedCalls(rule, hfns, func(call *ssa.Call) (string, bool) {
+		if !ofIface(call.Common(), mgr) || !retErr(call) {
+			return "", false
+		}
+		return "Manager." + call.Call.Method.Name(), true
+	}, true, "the client is told the operation succeeded although the message manager reported a failure")
+	var sfns []*ssa.Function
+	if smT := p.Named("pkg/message", "StoreManager"); smT != nil {
+		for _, fn := range pkgFuncs(p, "pkg/message") {
+			if rc := fn.Signature.Recv(); rc != nil && fn.Parent() == nil {
+				t := rc.Type()
+				if pt, ok := t.(*types.Pointer); ok {
+					t = pt.Elem()
+				}
+				if types.Identical(t, smT) {
+					sfns = append(sfns, eng.WithAnons(fn)...)
+				}
+			}
+		}
+	}
+	nS := c.errNotSwallowedCalls(rule, sfns, func(call *ssa.Call) (string, bool) {
+		if !ofIface(call.Common(), store) || !retErr(call) {
+			return "", false
+		}
+		return "Store." + call.Call.Method.Name(), true
+	}, true, "the manager reports success although the store failed: the API then shows a state the store does not have")
+	r.Floor(rule, "Manager calls in handlers + Store calls in StoreManager", nH+nS, 6)
 }
